@@ -91,7 +91,7 @@ impl Ctx {
                 drop(st);
                 // (only on a lossless network: under loss the FIN may simply sit in a lost packet of a
                 // connection that is wedged for protocol-level reasons)
-                if !unfinished.is_empty() && self.plan.net.lossless() {
+                if !unfinished.is_empty() && self.plan.net.lossless() && matches!(e, ConnectionError::TimedOut) {
                     tag = "";
                     self.env.violate(format!(
                         "teardown: streams {unfinished:?} of conn {} were finished or dropped by their writer and completely delivered, yet their readers never saw the end of stream before the connection idled out",
